@@ -511,7 +511,7 @@ pub fn run(tier: Tier) -> CheckResult {
     res.coverage.set("completed", json!(completed));
     res.coverage.set("samples", json!(samples));
     res.coverage.set("exhaustive", exhaustive);
-    res.coverage.set("rule", "explicit-state BFS: state = (sources variant, configuration, output directory minus timestamp line, cache file); transition = one action (toggle a source edit / configuration setting, delete a generated file, or nothing) followed by one non-forced run - or, for four designated actions, a FORCED run - of the real binary or build-script path under the identity schedule; invariant in every state reached by a successful run: every file of a forced reference generation exists with equal content; states violating the invariant are reported and not expanded; plans: the full action alphabet to the tier's depth through one seam, the same with alternating seams (b0), and one level deeper over a twelve-action core alphabet (b0); a history is non-trivial when it contains at least one edit/config/file action and its last run exited 0");
+    res.coverage.set("rule", "[round 7: action dangling-link:<file> - a generated file replaced by a symbolic link whose target is gone] explicit-state BFS: state = (sources variant, configuration, output directory minus timestamp line, cache file); transition = one action (toggle a source edit / configuration setting, delete a generated file, or nothing) followed by one non-forced run - or, for four designated actions, a FORCED run - of the real binary or build-script path under the identity schedule; invariant in every state reached by a successful run: every file of a forced reference generation exists with equal content; states violating the invariant are reported and not expanded; plans: the full action alphabet to the tier's depth through one seam, the same with alternating seams (b0), and one level deeper over a twelve-action core alphabet (b0); a history is non-trivial when it contains at least one edit/config/file action and its last run exited 0");
     res.assumptions = vec![
         "all runs use the hooks-on binary under the identity schedule so that byte comparison is meaningful (order nondeterminism is C13's business)".into(),
         "edit alphabet: one representative per output-affecting edit class (projects.rs)".into(),
